@@ -53,10 +53,11 @@ func validateAllCriteriaAreGain(criteria *model.Criteria) {
 
 func validateAllWeightsAvailable(weights *model.Weights, criteria *model.Criteria) {
 	criteriaNames := criteria.Names()
-	requiredCriteriaCombinations := *PowerSet(*criteriaNames)
-	for _, rcc := range requiredCriteriaCombinations {
+	// combinations are checked one by one, in PowerSet order: the first missing one is reported
+	// before more combinations than given weights were generated, whatever the number of criteria.
+	EachSubSet(*criteriaNames, func(rcc []string) {
 		getWeightForCriteriaUnion(&rcc, weights)
-	}
+	})
 }
 
 const criteriaSeparator = ","
